@@ -1191,6 +1191,8 @@ def cat(xs, dim=0, axis=None, cls=None):
 
 def stack(xs, dim=0, axis=None, cls=None):
     xs = list(xs)
+    if not xs:
+        raise ValueError("need at least one array to stack")
     ax = axis if axis is not None else dim
     C = cls or _cls(xs)
     xs = [x if isinstance(x, Arr) else C(x) for x in xs]
